@@ -31,6 +31,17 @@ CHECKS = {
               "reject with ValueError."),
         note="Trusted: hashlib (OpenSSL) and ref/hashes.py self-tests (RFC/NIST vectors); MD5/SHA-1/SHA-2/BLAKE2 have hashlib as the only oracle. Messages up to 2 MiB; bit-length counter carries beyond 2^32 bits are not reached.",
         ref="DESIGN.md §4 C03"),
+    "C06": dict(
+        technique="runtime monitor: reference-model oracle (exact affine Weierstrass / Edwards / Montgomery arithmetic on Python integers, SP 800-56A and RFC 7748 secrets) over point/scalar/role grids with replayed blinding seeds",
+        text=("Every EccPoint/EccXPoint operator (+ += - * *= rmul == != double copy xy is_point_at_infinity point_at_infinity) on all nine curves is compared with EXACT "
+              "coordinates from ref/ec.py: operands G, kG, points lifted from random x, the neutral element built four ways, P+P, P+(-P), P+neutral, all Edwards torsion points, "
+              "Montgomery low-order and twist u, each built by several routes (constructor, sum with projective representation, copy, negation); scalars 0, 1, 2, n+-k, 2n, 2n+5, "
+              "3n, 8n, 2^e+-1, 1-80-byte and 1000-bit values, repeated-digit scalars touching every window of the fixed-base tables, as int and Integer; generator fast path vs "
+              "generic path on the same k; the blinding seed is replayed from a tape (zero seed = unblinded path); operands must stay unchanged, in-place results must equal the "
+              "result and survive exceptions uncorrupted; mixed-curve operands must raise or compare unequal.  ECDH: all five documented static/ephemeral role combinations in "
+              "both directions on the seven DH curves, Z equal for both parties and equal to the model; neutral/low-order peer keys in every role slot must end in ValueError."),
+        note="Trusted: ref/ec.py (curve parameters validated, RFC 7748/NIST vectors) cross-checked at run time against a second affine Montgomery model. Scalars <= 1000 bits. One known finding (2-torsion u=0 on Curve25519/448) is listed in known_findings.json.",
+        ref="DESIGN.md §4 C06"),
     "C07": dict(
         technique="runtime monitor: reference-model oracle (independent EME-OAEP / EME-PKCS1-v1_5 encode+decode) with chosen encoded messages pushed through the real decryption path (c = EM^e mod n) and entropy tapes for encryption",
         text=("Round trip for every message length 0..max (max+1 refused) on 1024..1031-, 1040-, 1536-bit and tiny (81..768-bit) moduli with e in {3,17,65537}, four hashes, "
